@@ -8,8 +8,10 @@ TRUSTED = [
     "hand-written model props/C02/coq/Model.v of the merge nodes (node/*.go), TreeFold, getLIDsBorders, "
     "buildEvalTree/evalLeaf and iterateEvalTree (tied to /repo by the correspondence run, not verified code)",
     "Go harness harness/cmd/hC02 (corpus/query generators, AST printer) and harness/internal/fracbuild",
-    "the LID table (active: queue sort + mergeSorted + inverser; sealed: sorted ID blocks) and the posting lists "
-    "are modelled by their specification (position in the (MID,RID,arrival)-descending order), not transcribed",
+    "hand-written transcription props/C02/coq/ModelTx.v of the active index (TokenLIDs, mergeSorted, inverser, "
+    "inverseLIDs, AppendIDs), tied to /repo by unit-level classes through frac/export_verif_c02.go and by scripts",
+    "the SEALED fraction's ID/LID blocks are modelled by their specification (position in the (MID,RID)-descending "
+    "order), not transcribed",
     "leaf matching restricted to literal / prefix / suffix patterns on keyword fields (wildcards, ranges: C13)",
 ]
 ASSUME = [
@@ -19,7 +21,7 @@ ASSUME = [
     "one fraction per search (the cross-fraction merge of seq.MergeQPRs belongs to C16/C19)",
 ]
 RULE = ("random trees of real merge nodes (AND/OR/NAND/NOT, depth <= 4, both directions) over shaped static "
-        "posting lists; BuildORTree over 0-9 lists; random corpora (1-40 docs, a few of 300-1500 (quick) / 1000-3000 plus two sealed ones above 4096 IDs (thorough), equal "
+        "posting lists; BuildORTree over 0-9 lists; real TokenLIDs under scripted PutLIDsInQueue/GetLIDs (duplicate LIDs inside and across batches, equal (MID,RID), puts after gets); real inverser + inverseLIDs on random mappings; active fractions <= 100 docs as scripts of bulks and searches replayed by the transcribed model; random corpora (1-40 docs, a few of 300-1500 (quick) / 1000-3000 plus two sealed ones above 4096 IDs (thorough), equal "
         "MIDs, extreme RIDs, documents carrying the same token 2-3 times, 1-4 out-of-order bulks with a checked search between bulks on all tokens / on the tokens of the next bulk) in real active / sealed / "
         "sealed-and-reloaded fractions, 8-12 requests each (boolean trees with NOT at any depth over literal, "
         "prefix, suffix leaves; [from,to] around the stored MIDs incl. 0 and 2^64-1 and from>to; both orders; "
